@@ -25,6 +25,29 @@ func main() {
 		os.Exit(cmdCheck(os.Args[2:]))
 	case "explain":
 		os.Exit(cmdExplain(os.Args[2:]))
+	case "effects":
+		repo := envOr("SPG_REPO", "/repo")
+		if len(os.Args) > 2 {
+			repo = os.Args[2]
+		}
+		p, err := core.Load(repo, core.Configs[0])
+		if err != nil {
+			fmt.Fprintln(os.Stderr, err)
+			os.Exit(2)
+		}
+		eff := core.GetEff(p)
+		for _, fn := range p.ModuleFuncs() {
+			fmt.Printf("%s  returnsFresh=%v\n", core.FuncName(fn), eff.ReturnsFresh(fn))
+			for _, ef := range eff.Direct[fn] {
+				fmt.Printf("    direct  %-45s %-28s %s\n", ef.Root, ef.What, p.InstrPos(ef.Instr))
+			}
+			for _, ef := range eff.Summary[fn] {
+				fmt.Printf("    SUMMARY %-45s %s @%s via[%s]\n", ef.Root, ef.What, p.InstrPos(ef.Instr), ef.Via)
+			}
+			for _, u := range eff.Unknown[fn] {
+				fmt.Printf("    UNKNOWN %s\n", u)
+			}
+		}
 	case "list":
 		for _, id := range rules.IDs() {
 			fmt.Println(id)
